@@ -41,16 +41,29 @@ type Issue struct {
 }
 
 type req struct {
+	ctx       context.Context
 	ch        chan struct{}
 	phys, log int64
 	err       error
 	allocated bool
 }
 
-// Wait implements tso.TSFuture.
+// Wait implements tso.TSFuture.  Like the real PD client it honours the
+// context the request was made with: while the response is held, a cancelled
+// or expired context ends the wait with ctx.Err() (the request itself stays
+// outstanding at the scripted PD until it is released).
 func (r *req) Wait() (int64, int64, error) {
-	<-r.ch
-	return r.phys, r.log, r.err
+	select {
+	case <-r.ch:
+		return r.phys, r.log, r.err
+	default:
+	}
+	select {
+	case <-r.ch:
+		return r.phys, r.log, r.err
+	case <-r.ctx.Done():
+		return 0, 0, r.ctx.Err()
+	}
 }
 
 // Policy describes how the source behaves for requests that arrive from now on.
@@ -243,7 +256,10 @@ func (s *Source) GetLocalTSAsync(ctx context.Context, _ string) tso.TSFuture {
 // GetTSAsync implements pd.Client.
 func (s *Source) GetTSAsync(ctx context.Context) tso.TSFuture {
 	s.requests.Add(1)
-	r := &req{ch: make(chan struct{})}
+	if ctx == nil {
+		ctx = context.Background()
+	}
+	r := &req{ctx: ctx, ch: make(chan struct{})}
 	s.mu.Lock()
 	if s.pol.ErrPct > 0 && s.rng.Intn(100) < s.pol.ErrPct {
 		r.err = ErrInjected
